@@ -938,7 +938,8 @@ class ImageBatch(DataTensor):
             padding=padding,
             align_corners=align_corners,
         )
-        return self._make_instance(data, arg)
+        grids = tuple(arg) * len(self) if len(arg) == 1 else tuple(arg)
+        return self._make_instance(data, grids)
 
     def __repr__(self) -> str:
         return type(self).__name__ + f"(data={self.tensor()!r}, grid={self.grids()!r})"
